@@ -9,3 +9,4 @@ open Biogo.Properties.C11_checker
 #print axioms programStatement_sound
 #print axioms checkSegs_cycles
 #print axioms programStatementA_cycles
+#print axioms segs_from_fresh
